@@ -14,6 +14,7 @@ RULE = ('Liveness restated as bounded progress at quiescence.  cache mode: case 
         'sequences')
 RULE_MORE = (' Also relay configurations without flow control (nobody may end up paused) and sub-second points in the cache workloads.')
 RULE_MORE = RULE_MORE + ' Rounds 10-11: the late-receiver observation counts pause requests on the new transport; closes requested by carbon may take effect later; a directed connection-quality-reset family; more schedules for caches of 1-2 datapoints.'
+RULE_MORE = RULE_MORE + ' Round 12: pooled connections to one host:port (DESTINATION_POOL_REPLICAS), one member stalling until its queue reports full and then lost.'
 RULE = RULE + RULE_MORE
 EXHAUSTIVE = {'quick': False, 'thorough': False}
 EXHAUSTIVE_OVER = 'cache mode: all single-preemption schedules per workload; relay mode: all applicable sequences up to length L per prefix'
